@@ -1,6 +1,7 @@
 import SiaModel.Prim.Bytes
 import SiaModel.Prim.Blake2b
 import SiaModel.Merkle.Accumulator
+import SiaModel.Merkle.TreeNodes
 /-!
   Line-protocol ops for the element accumulator (C04, C05), with `H := ByteArray`
   and the real BLAKE2b-256.
@@ -21,6 +22,8 @@ import SiaModel.Merkle.Accumulator
         -> ok n roots | updated idx:proof;.. (by index) | added idx:proof;.. | tracked proof;..
     acc-revert  n <leaves updated> addedCount <tracked>
         -> ok n | updated idx:proof;.. | added indices | tracked proof;..
+    acc-nodes   <leaves>                     ForEachTreeNode over the elements of an update
+        -> row:col:hash;...
     acc-scenario <news initial> <updates idx:spent:elem;..> <news added>
         -> "<alg> = <spec>" where each side is `n roots proofs-of-every-leaf`,
            alg: addLeaves from empty, then applyBlock + updateElementProof of every old leaf
@@ -178,6 +181,13 @@ def opRevert : List String → String
     | _, _, _, _ => "bad-op"
   | _ => "bad-op"
 
+def opNodes : List String → String
+  | [ls] =>
+    match parseLeaves ls with
+    | some ls => showList ((forEachTreeNode ls).map fun (r, c, h) => s!"{r}:{c}:{hexEncode h}")
+    | none => "bad-op"
+  | _ => "bad-op"
+
 def opScenario : List String → String
   | [ini, upds, add] =>
     match parseNews ini, parseUpdates upds, parseNews add with
@@ -216,6 +226,7 @@ def accOps : List (String × (List String → String)) := [
   ("acc-contains", AccOps.opContains),
   ("acc-apply", AccOps.opApply),
   ("acc-revert", AccOps.opRevert),
+  ("acc-nodes", AccOps.opNodes),
   ("acc-scenario", AccOps.opScenario)]
 
 end Sia.Driver
